@@ -191,7 +191,8 @@ CLAIMED = {
              "HasDerivAt for the seven smooth scalar kernels; value >= 0, error >= 0 and the three error rules (argmax, sign count, binary sign). The convexity / smoothness / strong-convexity flags the implementation DECLARES are "
              "dumped from the real objects into Gen/Flags.lean on every run and `flags_covered` / `strong_covered` / `strong_values_covered` (decide) require every flagged id to own a theorem or be in the short tested-only list "
              "(55 theorems). Correspondence: 17 losses, 47 of 48 prototypes and the constraint kinds at Float vs the real code (1e-12 / 1e-9); python oracle: difference quotients, value-only = value+gradient, convexity "
-             "inequality with local search for violating pairs. One open known finding (linear::function_t strong convexity along the bias).",
+             "inequality with local search for violating pairs. One open known finding (linear::function_t strong convexity along the bias). "
+             "Gap-closing round (36 further theorems, 138 in all): eight array kernels of flatten.h plus logistic (value and gradient), pinball and the absdiff / multi-class error rules are RE-TRANSLATED from the source on every run (Gen/LossKernels.lean) and the model's text is proved to be the generated one (rfl); the tensor interface of the losses is modelled (entry i of values / errors / gradients is the kernel on sample i alone for any batch size; a batch equals each sample alone); function_t's base class as a history machine (the exact acceptance rule of the four constrain overloads, a refused call changes nothing, valid, gcalls <= fcalls); the make(dims, summands) size rules with the dumped size() of all 48 prototypes x dims 1..32 tied by decide (Powell keeps multiples of four: value ignores and gradient covers exactly those coordinates); every gradient component is written (the harness pre-fills every buffer with a sentinel); any mu with mu |d|^2 <= d.Ad is a valid modulus and flags of quadratic constraints must come from the symmetric part (kernel-checked witness); classnll is negative off the one-hot targets and pinball outside its alpha domain (necessity witnesses replayed). Run-time monitors recompute the Eigen eigenvalue oracle (Jacobi rotations) on every quadratic flag.",
         note=NOTE_COMMON + "Non-convex functions: gradient correctness is tested only; eigenvalue-based flags (quadratic, quadratic constraints) are hypotheses of the theorems and tested; ML objective plumbing belongs to C09."),
     "C08": dict(
         category="proof", technique=TECH, design="DESIGN.md §4 C08",
